@@ -303,8 +303,15 @@ def replay_behaviour(col, w, b, hdr, rng, pid):
                 return
         elif st['act'] == 'Split':
             thr = conc_thr(st['thr'], unit)
-            auto = (form == 'path' and rng.random() < 0.5)
-            g, bd = (out + '_good', out + '_bad') if auto else (w.path('good'), w.path('bad'))
+            # output names: both automatic (<input>_good / <input>_bad, file input only), both explicit, or one of each
+            naming = rng.choice(['auto', 'explicit', 'good_explicit', 'bad_explicit']) if form == 'path' else 'explicit'
+            g = w.path('good') if naming in ('explicit', 'good_explicit') else out + '_good'
+            bd = w.path('bad') if naming in ('explicit', 'bad_explicit') else out + '_bad'
+            names = {}
+            if naming in ('explicit', 'good_explicit'):
+                names['output_good'] = g
+            if naming in ('explicit', 'bad_explicit'):
+                names['output_bad'] = bd
             for p_ in (g, bd):
                 if os.path.exists(p_):
                     os.remove(p_)
@@ -314,15 +321,9 @@ def replay_behaviour(col, w, b, hdr, rng, pid):
                     if rng.random() < 0.5:
                         # the output names were already used by an earlier call with another threshold (everything
                         # good, or everything bad): nothing of that call may survive in the new outputs
-                        kw0 = {'chi': rng.choice([1e-12, 1e12])}
-                        if auto:
-                            filter_output(inp, **kw0)
-                        else:
-                            filter_output(inp, output_good=g, output_bad=bd, **kw0)
-                    if auto:
-                        filter_output(inp, **kw)
-                    else:
-                        filter_output(inp, output_good=g, output_bad=bd, **kw)
+                        kw0 = dict(names, chi=rng.choice([1e-12, 1e12]))
+                        filter_output(inp, **kw0)
+                    filter_output(inp, **dict(names, **kw))
             except Exception as e:
                 col.violation('%s:split_raised:%s:%s' % (pid, form, type(e).__name__), 'filter_output(%s input) raised %r' % (form, e),
                               dict(ctx_desc, step=step_no))
